@@ -339,11 +339,34 @@ func c06bodyAndHeaders(req *http.Request, num func(string) string) {
 
 func VerifC06_ServeTotal() {
 	cl := &c06closer{}
-	opts := &Options{
-		OmitDigestFromTagGetResponse: verifBool("omitDigest"),
-		OmitLinkHeaderFromResponses:  verifBool("omitLink"),
-		DisableSinglePostUpload:      verifBool("noSinglePost"),
-		DisableReferrersAPI:          verifBool("noReferrers"),
+	opts := &Options{}
+	if verifParam("loc", 0) != 1 {
+		opts.OmitDigestFromTagGetResponse = verifBool("omitDigest")
+		opts.OmitLinkHeaderFromResponses = verifBool("omitLink")
+		opts.DisableSinglePostUpload = verifBool("noSinglePost")
+		opts.DisableReferrersAPI = verifBool("noReferrers")
+	} else {
+		// (the four Boolean options are left at their defaults in this mode)
+		// the two location callbacks, each unset or answering in every documented way
+		// (incl. an empty, non-nil slice and an error)
+		switch verifChoose("locationsForDescriptor", 5) {
+		case 1:
+			opts.LocationsForDescriptor = func(bool, ociregistry.Descriptor) ([]string, error) { return nil, nil }
+		case 2:
+			opts.LocationsForDescriptor = func(bool, ociregistry.Descriptor) ([]string, error) { return []string{}, nil }
+		case 3:
+			opts.LocationsForDescriptor = func(bool, ociregistry.Descriptor) ([]string, error) {
+				return []string{"https://mirror.example/x", "https://other.example/y"}, nil
+			}
+		case 4:
+			opts.LocationsForDescriptor = func(bool, ociregistry.Descriptor) ([]string, error) { return nil, c06opaque }
+		}
+		switch verifChoose("locationForUploadID", 3) {
+		case 1:
+			opts.LocationForUploadID = func(id string) (string, error) { return "https://uploads.example/" + id, nil }
+		case 2:
+			opts.LocationForUploadID = func(id string) (string, error) { return "", c06opaque }
+		}
 	}
 	h := New(c06backend(cl), opts)
 	req := c06request()
